@@ -99,7 +99,7 @@ def compute_features_2d(sigs, fs, f_range, compute_features_kwargs=None, axis=0,
     check_kwargs_shape(sigs, kwargs, axis)
 
     kwargs = {} if kwargs is None else kwargs
-    kwargs = [kwargs] if isinstance(kwargs, dict) else list(kwargs)
+    kwargs = [kwargs] if isinstance(kwargs, dict) else [dict(kwarg) for kwarg in kwargs]
 
     # Drop return_samples argument, as it is set directly in the function call
     for kwarg in kwargs:
